@@ -2,10 +2,13 @@
 for generated programs of the core subset, plus the Lang/Stmt model correspondence."""
 from __future__ import annotations
 
+import ast
 import collections
+from fractions import Fraction
 
 from harness import common as C
 from harness import fw, progen, tracecmp
+from harness import pyast_wire as PW
 from harness import stmt_wire as SW
 
 META_PART = "statement layer: Coq model of declaration/assignment/control-flow translation (Lang/Stmt*.v) with a simulation theorem; tie = IR of the real parser vs model on generated programs; oracle = firmware trace vs CPython trace"
@@ -17,10 +20,89 @@ WITNESSES = {
         "src": progen.HEADER + "for i in range(4):\n    if i == 2:\n        continue\n    mon.write(i)\n", "loops": 0},
     "F-C01-range-bound-reeval": {
         "src": progen.HEADER + "n = 3\nfor i in range(n):\n    n = n - 1\n    mon.write(i)\n", "loops": 0},
+    "F-C01-retype-truncates": {
+        "src": progen.HEADER + "x = 1\nx = 2.5\nmon.write(x)\n", "loops": 0},
+    "F-C01-hoisted-decl-reinit": {
+        "src": progen.HEADER + "w = 0\nwhile w < 2:\n    for k in range(1 - w):\n        z = 5\n    w = w + 1\nmon.write(z)\n", "loops": 0},
+    "F-C01-loop-local-reinit": {
+        "src": progen.HEADER + "w = 0\nwhile True:\n    if w == 0:\n        z = 5\n    w = w + 1\n    mon.write(z)\n", "loops": 2},
 }
 
 
-def gen_inputs(rng):
+# hand-written boundary programs (run first, every tier): the break guard of the main loop,
+# break inside nested loops, an empty range, elif chains, a loop variable shadowing a later global
+CORPUS = [
+    {"pre": [("assign", "n0", "2"), ("assign", "i0", "0")],
+     "main": [("assign", "i0", "(i0 + 1)"), ("if", [("(i0 > 2)", [("break",)])], []), ("write", "i0")]},
+    {"pre": [("assign", "i0", "0")], "main": [("break",), ("write", "i0")]},
+    {"pre": [("assign", "i0", "0"), ("break",), ("write", "i0")], "main": None},
+    {"pre": [("assign", "i0", "0"), ("if", [("(i0 == 0)", [("break",)])], [])], "main": [("write", "i0")]},
+    {"pre": [("assign", "i0", "0")],
+     "main": [("for", "k0", "4", [("if", [("(k0 == 2)", [("break",)])], []), ("write", "(k0 + i0)")]),
+              ("assign", "i0", "(i0 + 10)")]},
+    {"pre": [("assign", "i0", "5"), ("assign", "w0", "0"),
+             ("while", "(w0 < 3)", [("for", "k0", "w0", [("write", "(k0 * 10 + w0)")]),
+                                    ("if", [("(w0 == 1)", [("aug", "i0", "-", "3")]), ("(w0 == 2)", [("aug", "i0", "*", "i0")])], [("write", '"else"')]),
+                                    ("assign", "w0", "(w0 + 1)")]),
+             ("write", "i0")], "main": None},
+    {"pre": [("assign", "i0", "1"), ("for", "k0", "0", [("write", "k0")]), ("for", "k0", "3", [("aug", "i0", "-", "k0")]),
+             ("assign", "k0", "7"), ("write", "(k0 + i0)")], "main": [("aug", "k0", "-", "2"), ("write", "k0"), ("sleep", "k0")]},
+    {"pre": [("assign", "i0", "3"), ("assign", "i1", "(i0 + 1)"), ("assign", "i0", "(i1 * 2)")],
+     "main": [("if", [("(i0 > 10)", [("assign", "i0", "(i0 - 7)")]), ("(i0 > 5)", [("assign", "i0", "(i0 - 1)")]), ("(i0 > 2)", [("write", '"mid"')])],
+               [("assign", "i0", "20")]), ("write", "i0")]},
+    # tuple declarations of all-new globals whose right-hand sides read re-assigned / accumulated variables
+    {"pre": [("assign", "i0", "40"), ("assign", "i0", "(i0 + 15)"), ("tuple", ["i1", "i2"], ["(i0 - 5)", "(i0 + 5)"]),
+             ("write", "i1"), ("write", "i2"), ("assign", "i3", "0"), ("for", "k0", "5", [("assign", "i3", "(i3 + k0)")]),
+             ("tuple", ["i4", "i5"], ["(i3 - 5)", "(i3 * 2)"]), ("write", "(i4 + i5)")],
+     "main": [("assign", "i0", "(i0 + 1)"), ("if", [("(i1 < i0 < i2)", [("write", "i2")])], [("write", "i4")])]},
+    # first assignment inside a loop / a branch, read afterwards (promotion)
+    {"pre": [("assign", "i0", "2"), ("for", "k0", "3", [("assign", "i5", "(k0 + i0)")]), ("write", "i5"),
+             ("assign", "w0", "0"), ("while", "(w0 < 2)", [("assign", "i6", "(w0 * 5)"), ("assign", "w0", "(w0 + 1)")]), ("write", "i6")],
+     "main": [("if", [("(i0 > 1)", [("assign", "i7", "5")])], [("assign", "i7", "7")]), ("write", "(i7 + i5)"), ("assign", "i0", "(i0 - 1)")]},
+]
+
+
+LIST_CORPUS = [
+    "plain = [5, 1, 8, 3]\nplain.remove(8)\nmon.write(f\"{plain[0]} {plain[1]} {plain[2]}\")\nq = [4, 7, 4, 9, 7]\nq.remove(7)\n"
+    "mon.write(f\"{q[0]} {q[1]} {q[2]} {q[3]}\")\nq.append(4)\nq.remove(4)\nmon.write(f\"{q[0]} {q[1]} {q[2]} {q[3]}\")\n"
+    "t = [0, 1, 0]\nn = 0\nwhile True:\n    n += 1\n    t.append(n % 2)\n    t.remove(t[0])\n    mon.write(f\"{n}: {t[0]}{t[1]}{t[2]}\")\n    sleep(15)\n",
+]
+
+
+def gen_list_program(rng):
+    """int lists with duplicate values; append / remove(first occurrence) / index reads, every element observed
+    after every operation (lists are outside the statement model: firmware-vs-CPython oracle only; len() is not
+    used because the transpiler folds it, which is C03's business)"""
+    cur = [rng.choice([0, 1, 2, 4, 7]) for _ in range(rng.choice([3, 4, 5]))]
+    lines = [f"q = [{', '.join(map(str, cur))}]", "n = 0"]
+
+    def dump(pad=""):
+        return pad + 'mon.write(f"' + " ".join("{q[%d]}" % i for i in range(len(cur))) + '")'
+    for _ in range(rng.choice([2, 3, 4])):
+        if rng.random() < 0.5 and len(cur) > 2:
+            k = rng.randrange(len(cur))
+            lines.append(f"q.remove(q[{k}])" if rng.random() < 0.5 else f"q.remove({cur[k]})")
+            cur.remove(cur[k])
+        elif len(cur) < 7:
+            src, v = rng.choice([("1", 1), ("4", 4), ("7", 7), ("q[0]", cur[0]), ("q[%d]" % (len(cur) - 1), cur[-1]), ("(n + 2)", 2)])
+            lines.append(f"q.append({src})")
+            cur.append(v)
+        lines.append(dump())
+    if rng.random() < 0.8:
+        lines.append("while True:")
+        lines.append("    n += 1")
+        lines.append(f"    q.append({rng.choice(['(n % 2)', 'q[0]', 'q[1]', '(n % 3)'])})")
+        lines.append(f"    q.remove(q[{rng.randrange(len(cur))}])")
+        lines.append(dump("    "))
+    return "\n".join(lines) + "\n"
+
+
+PINS = {'"A0"': 14, '"A1"': 15, "4": 4}
+
+
+def gen_inputs(rng, force_const=False):
+    if rng.random() < 0.5 or force_const:      # constant reading per pin: the program is a pure function, the models can run it
+        return "ar 14 %d\nar 15 %d\ndr 4 %d\n" % (rng.choice([0, 5, 300, 1023, 512]), rng.choice([1, 2, 700]), rng.choice([0, 1]))
     return "ar 14 %s\nar 15 %s\ndr 4 %s\n" % (
         " ".join(str(rng.choice([0, 5, 300, 1023, 512])) for _ in range(6)),
         " ".join(str(rng.choice([1, 2, 700])) for _ in range(4)),
@@ -44,7 +126,7 @@ def run_pair(srcs, inputs, loops):
             continue
         r = res[k]
         if y["exc"]:
-            out.append({"status": "py-undefined", "exc": y["exc"]})
+            out.append({"status": "py-undefined", "exc": y["exc"], "py_all": y["events"]})
             continue
         if not r["compiled"]:
             out.append({"status": "nocompile", "log": r["compile_log"][-800:]})
@@ -54,17 +136,290 @@ def run_pair(srcs, inputs, loops):
             continue
         d = tracecmp.compare(r["events"], y["events"])
         out.append({"status": "equal" if d is None else "DIFF", "diff": d,
-                    "fw": tracecmp.fw_events(r["events"])[:60], "py": tracecmp.py_events(y["events"])[:60]})
+                    "fw": tracecmp.fw_events(r["events"])[:60], "py": tracecmp.py_events(y["events"])[:60],
+                    "fw_all": r["events"], "py_all": y["events"]})
     return out
 
 
-def ir_correspondence(ctx, progs):
+INT_MAX = 2 ** 31 - 1
+
+
+class _Wrap(ast.NodeTransformer):
+    """wrap every loaded expression in __chk(...) (records integers outside the 32-bit range)"""
+
+    def visit(self, node):
+        node = self.generic_visit(node)
+        if isinstance(node, ast.expr) and not isinstance(node, (ast.JoinedStr, ast.FormattedValue, ast.Starred)) \
+                and isinstance(getattr(node, "ctx", ast.Load()), ast.Load):
+            if isinstance(node, ast.Name) and node.id in ("range", "mon", "sleep", "abs", "min", "max", "int", "float", "bool", "str", "len",
+                                                          "digital_write", "analog_write", "digital_read", "analog_read", "__chk"):
+                return node
+            if isinstance(node, ast.Attribute):
+                return node
+            return ast.copy_location(ast.Call(func=ast.Name(id="__chk", ctx=ast.Load()), args=[node], keywords=[]), node)
+        return node
+
+
+def leaves_int32(script, inp, loops):
+    """True iff the CPython execution of the generated script (setup + `loops` passes) computes an int outside
+    the 32-bit range of the g++ mock (C int is modelled as Z with an explicit no-overflow guard, DESIGN section 1)
+    or a float of magnitude >= 2^17 (the device float is binary32; Serial prints 2 decimals);
+    None if the script cannot be analysed (it is then kept inside the guard)."""
+    body = script[len(progen.HEADER):] if script.startswith(progen.HEADER) else script
+    try:
+        tree = ast.parse(body)
+    except SyntaxError:
+        return None
+    for i, st in enumerate(tree.body):
+        if isinstance(st, ast.While) and isinstance(st.test, ast.Constant) and st.test.value is True:
+            tree.body[i] = ast.copy_location(
+                ast.For(target=ast.Name(id="__pass", ctx=ast.Store()),
+                        iter=ast.Call(func=ast.Name(id="range", ctx=ast.Load()), args=[ast.Constant(loops)], keywords=[]),
+                        body=st.body, orelse=[]), st)
+    tree = ast.fix_missing_locations(_Wrap().visit(tree))
+    seen = [False]
+    feeds = {}
+    for line in inp.splitlines():
+        w = line.split()
+        if len(w) >= 3 and w[0] in ("ar", "dr"):
+            feeds[(w[0], int(w[1]))] = [int(x) for x in w[2:]]
+
+    def chk(v):
+        if isinstance(v, int) and not isinstance(v, bool) and abs(v) > INT_MAX:
+            seen[0] = True
+        elif isinstance(v, float) and not abs(v) < 131072.0:
+            seen[0] = True      # the device float is binary32: beyond 2^17 it no longer carries the 2 printed decimals
+        return v
+
+    def read(kind):
+        def f(pin):
+            k = (kind, {"A0": 14, "A1": 15}.get(pin, pin))
+            q = feeds.get(k) or [0]
+            return q.pop(0) if len(q) > 1 else q[0]
+        return f
+
+    class Mon:
+        def write(self, v):
+            return None
+    steps = [0]
+
+    def tracer(frame, event, arg):
+        steps[0] += 1
+        if steps[0] > 200000:
+            raise TimeoutError()
+        return tracer
+    env = {"__chk": chk, "mon": Mon(), "sleep": lambda ms: None, "digital_write": lambda p, v: None, "analog_write": lambda p, v: None,
+           "analog_read": read("ar"), "digital_read": read("dr")}
+    import sys
+    old = sys.gettrace()
+    try:
+        sys.settrace(tracer)
+        exec(compile(tree, "<generated>", "exec"), env)
+    except Exception as e:  # noqa  (NameError etc.: the reference run decides; nothing to add here)
+        if C.os.environ.get('C01_DEBUG'):
+            print('leaves_int32:', type(e).__name__, e)
+    finally:
+        sys.settrace(old)
+    return seen[0]
+
+
+EFFECTS = ("S ", "D ", "DW ", "AW ")
+
+
+def const_inputs(inp):
+    """input script -> {pin: value} for the pins whose scripted reading is constant"""
+    out = {}
+    for line in inp.splitlines():
+        w = line.split()
+        if len(w) >= 3 and w[0] in ("ar", "dr") and len(set(w[2:])) == 1:
+            out[(w[0], int(w[1]))] = int(w[2])
+    return out
+
+
+class _Reads(ast.NodeTransformer):
+    """analog_read("A0") / digital_read(4) -> the constant scripted reading"""
+
+    def __init__(self, consts):
+        self.consts, self.ok = consts, True
+
+    def visit_Call(self, n):
+        self.generic_visit(n)
+        if isinstance(n.func, ast.Name) and n.func.id in ("analog_read", "digital_read") and len(n.args) == 1:
+            key = ast.unparse(n.args[0])
+            k = ("ar" if n.func.id == "analog_read" else "dr", PINS.get(key))
+            if k in self.consts:
+                return ast.copy_location(ast.Constant(self.consts[k]), n)
+            self.ok = False
+        return n
+
+
+def exec_exprs(exprs, consts):
+    """expression sources -> (wire expressions for Lang.StmtExec, {id: (kind, pin)} for effect calls) or None"""
+    wires, effects = [], {}
+    for i, src in enumerate(exprs):
+        node = ast.parse(src, mode="eval").body
+        if isinstance(node, ast.Call) and isinstance(node.func, ast.Name) and node.func.id in ("digital_write", "analog_write"):
+            if len(node.args) != 2 or not isinstance(node.args[0], ast.Constant):
+                return None
+            effects[i] = ("DW" if node.func.id == "digital_write" else "AW", node.args[0].value)
+            node = node.args[1]
+        t = _Reads(consts)
+        node = t.visit(node)
+        if not t.ok:
+            return None
+        wires.append(PW.enc_expr(node))
+    return wires, effects
+
+
+def _pyval(w):
+    v = PW.dec_val(w)
+    return float(v) if isinstance(v, Fraction) else v
+
+
+def model_lines(trace, effects):
+    """model trace (wire) -> event lines in the vocabulary of the CPython reference runner"""
+    out = []
+    for e in trace:
+        if e[0] == 0:
+            v = _pyval(e[1])
+            ty = "bool" if isinstance(v, bool) else "int" if isinstance(v, int) else "float" if isinstance(v, float) else "str"
+            out.append(f"S {v}\t{ty}")
+        elif e[0] == 1:
+            out.append(f"D {_pyval(e[1])}")
+        else:
+            kind, pin = effects[e[1]]
+            v = _pyval(e[2])
+            out.append(f"DW {pin} {1 if v else 0}" if kind == "DW" else f"AW {pin} {v}")
+    return out
+
+
+def same_lines(a, b):
+    """model lines vs CPython lines: exact, numbers compared as numbers"""
+    if len(a) != len(b):
+        return False
+    for x, y in zip(a, b):
+        if x == y:
+            continue
+        xs, ys = x.split(" "), y.split(" ")
+        if xs[0] == ys[0] and xs[0] in ("D", "DW", "AW") and len(xs) == len(ys):
+            try:
+                if all(float(p) == float(q) for p, q in zip(xs[1:], ys[1:])):
+                    continue
+            except ValueError:
+                pass
+        if x.startswith("S ") and y.startswith("S ") and x.endswith("\tfloat") and y.endswith("\tfloat"):
+            try:
+                p, q = float(x[2:-6]), float(y[2:-6])
+                if abs(p - q) <= 1e-9 * max(1.0, abs(q)):
+                    continue
+            except ValueError:
+                pass
+        return False
+    return True
+
+
+def model_predicts_deviation(ctx, p, l):
+    """For a script whose firmware trace differs from CPython's: does the faithful model (Lang.Transl + StmtSem,
+    run by Lang.StmtExec) itself compute a C trace different from its Python trace?  Then the script is outside
+    the guard of C01_stmt_preserve_partial and the deviation is of a class already modelled (the listed
+    findings: re-evaluated range bound, re-typed variable, re-initialised hoisted declaration).  None = the
+    models cannot run this script (helper functions, varying inputs): no excuse is made for it."""
+    exe = ctx.exes.get("C01_stmt")
+    if exe is None or p.get("funcs"):
+        return None
+    an = SW.Annotator()
+    pre = an.stmts(p["pre"])
+    main = an.stmts(p["main"]) if p["main"] is not None else None
+    if not an.ok:
+        return None
+    ee = exec_exprs(an.exprs, const_inputs(p["input"]))
+    if ee is None:
+        return None
+    impl = C.run_impl("c01_stmt_impl.py", {"cases": [{"src": progen.render(p), "exprs": an.exprs}]})
+    r = impl["results"][0]
+    w = [1, SW.wire_stmts(pre, r["consts"]), [] if main is None else [SW.wire_stmts(main, r["consts"])], ee[0], l, 600]
+    o = C.run_model(exe, [w])[0]
+    if not isinstance(o, list) or len(o) != 4 or o[0] != 0 or o[2][0] != 1 or o[3][0] == 2:
+        return None
+    if bool(o[1]):
+        return False                                   # inside the proved guard: never excused
+    if o[3][0] != 1:
+        return True
+    return not same_lines(model_lines(o[3][1], ee[1]), model_lines(o[2][1], ee[1]))
+
+
+def exec_correspondence(ctx, exe, items):
+    """items: (src_body, program, annotator, pre, main, impl_result, loops, pair_result).
+    Runs both sides of the statement model (Lang.StmtExec: Python expression semantics shared by
+    both sides) and compares  model Python trace = CPython trace,  model C trace = firmware trace."""
+    st = collections.Counter()
+    jobs = []
+    for it in items:
+        src, p, an, pre, main, r, l, pr = it
+        if pr is None or pr["status"] not in ("equal", "DIFF", "py-undefined", "outside-guard:model-predicted-deviation"):
+            st["skipped:" + (pr["status"] if pr else "none")] += 1
+            continue
+        ee = exec_exprs(an.exprs, const_inputs(p["input"]))
+        if ee is None:
+            st["skipped:varying-input"] += 1
+            continue
+        wires, effects = ee
+        w = [1, SW.wire_stmts(pre, r["consts"]), [] if main is None else [SW.wire_stmts(main, r["consts"])], wires, l, 600]
+        jobs.append((it, effects, w))
+    outs = C.run_model(exe, [j[2] for j in jobs])
+    inside = 0
+    for (it, effects, _), o in zip(jobs, outs):
+        src, p, an, pre, main, r, l, pr = it
+        case = {"script": src, "input": p["input"], "loops": l}
+        if not isinstance(o, list) or len(o) != 4 or o[0] != 0:
+            ctx.disagree("stmt-exec: model could not decode the program", case, o, None)
+            continue
+        guard, mpy, mc = bool(o[1]), o[2], o[3]
+        inside += guard
+        if pr["status"] == "py-undefined":
+            st["py-undefined"] += 1
+            if mpy[0] == 1:
+                ctx.disagree("stmt-exec: CPython raises, the model's Python semantics completes", case, model_lines(mpy[1], effects)[:40], pr["exc"])
+            continue
+        py = [e for e in pr["py_all"] if e.startswith(EFFECTS)]
+        fwv = [e for e in pr["fw_all"] if e.startswith(EFFECTS)]
+        if mpy[0] != 1:
+            st["model-py-undefined"] += 1
+            ctx.disagree("stmt-exec: the model's Python semantics is undefined on a script CPython runs", case, None, py[:40])
+            continue
+        ml = model_lines(mpy[1], effects)
+        if not same_lines(ml, py):
+            st["py-DIFF"] += 1
+            ctx.disagree("stmt-exec: Python-side trace of the model differs from CPython", case, ml[:60], py[:60])
+            continue
+        st["py-equal"] += 1
+        if mc[0] == 2:
+            ctx.disagree("stmt-exec: model rejects a script the real parser accepts", case, "rejected", "accepted")
+            continue
+        if mc[0] != 1:
+            st["model-c-undefined"] += 1
+            ctx.disagree("stmt-exec: the model's C semantics is stuck on a program the firmware runs", case, None, fwv[:40])
+            continue
+        cl = model_lines(mc[1], effects)
+        d = tracecmp.compare(fwv, cl)
+        if d is not None:
+            st["c-DIFF"] += 1
+            ctx.disagree("stmt-exec: C-side trace of the model (transl + cexec) differs from the firmware trace", case, cl[:60], {"first_difference": d, "firmware": fwv[:60]})
+            continue
+        st["c-equal"] += 1
+        if guard:
+            st["guard:theorem-instance" if same_lines(cl, ml) else "guard:prediction-mismatch"] += 1
+    return {"exec_cases": len(jobs), "exec_status": dict(st), "inside_proved_guard": inside}
+
+
+
+def ir_correspondence(ctx, progs, loops=None, res=None):
     """Lang.Transl.transl (extracted) vs the IR of the real parse() on the same programs."""
     exe = ctx.exes.get("C01_stmt")
     if exe is None:
         return {"ir_cases": 0}
-    cases = []
-    for p in progs:
+    cases, extra = [], []
+    for k, p in enumerate(progs):
         if p.get("funcs"):
             continue                      # helper functions are outside the statement model
         an = SW.Annotator()
@@ -72,6 +427,7 @@ def ir_correspondence(ctx, progs):
         main = an.stmts(p["main"]) if p["main"] is not None else None
         if an.ok:
             cases.append((p, an, pre, main))
+            extra.append((loops[k] if loops else 0, res[k] if res else None))
     if not cases:
         return {"ir_cases": 0}
     impl = C.run_impl("c01_stmt_impl.py", {"cases": [{"src": progen.render(p), "exprs": an.exprs} for p, an, _, _ in cases]})
@@ -108,7 +464,12 @@ def ir_correspondence(ctx, progs):
                          {"globals": ig, "first_differing_node": first and first[1]})
         else:
             st["equal"] += 1
-    return {"ir_cases": len(cases), "ir_status": dict(st)}
+    out = {"ir_cases": len(cases), "ir_status": dict(st)}
+    if res is not None:
+        items = [(progen.render(p)[len(progen.HEADER):], p, an, pre, main, r, l, pr)
+                 for (p, an, pre, main), r, (l, pr) in zip(cases, impl["results"], extra)]
+        out.update(exec_correspondence(ctx, exe, items))
+    return out
 
 
 def run_unit(ctx: C.Ctx):
@@ -116,18 +477,27 @@ def run_unit(ctx: C.Ctx):
     thorough = ctx.tier == "thorough"
     n = 900 if thorough else 120
     progs, feats = [], []
+    for cp in CORPUS:
+        progs.append({"funcs": [], "pre": list(cp["pre"]), "main": cp["main"], "input": "ar 14 300\nar 15 2\ndr 4 1\n"})
+        feats.append(("corpus",))
     for i in range(n):
         f = FEATURE_SETS[i % len(FEATURE_SETS)]
         g = progen.Gen(rng, f)
         p = g.program(with_main=rng.random() < 0.8)
-        p["input"] = gen_inputs(rng)
+        p["input"] = gen_inputs(rng, force_const="branch_first" in f)     # these are always run through the models too
         progs.append(p)
         feats.append(f)
     srcs = [progen.render(p) for p in progs]
     loops = [(rng.choice([0, 1, 2, 3]) if p["main"] is not None else 0) for p in progs]
     res = run_pair(srcs, [p["input"] for p in progs], loops)
     stats = collections.Counter()
+    outside = []
     for s, p, f, l, r in zip(srcs, progs, feats, loops, res):
+        if r["status"] in ("DIFF", "equal") and leaves_int32(s, p["input"], l):
+            r["status"] = "outside-guard:int32/float32-range"        # C int is 32 bits on the mock; never blamed (DESIGN section 1)
+        if r["status"] == "DIFF" and model_predicts_deviation(ctx, p, l):
+            r["status"] = "outside-guard:model-predicted-deviation"
+            outside.append(s[len(progen.HEADER):])
         stats[r["status"]] += 1
         body = s[len(progen.HEADER):]
         if r["status"] == "DIFF":
@@ -139,6 +509,17 @@ def run_unit(ctx: C.Ctx):
             ctx.fail("firmware crashed", {"script": s, "input": p["input"], "loops": l}, "rc 0", r, key="fw-crash")
         elif r["status"] == "rejected" and r["exc"] != "ValueError":
             ctx.fail(f"transpiler raised {r['exc']} (not ValueError)", {"script": s}, "ValueError or success", r, key="reject-kind")
+    # lists (outside the statement model): firmware trace vs CPython trace only
+    lsrcs = [progen.HEADER + b for b in LIST_CORPUS] + [progen.HEADER + gen_list_program(rng) for _ in range(60 if thorough else 12)]
+    lloops = [(rng.choice([0, 2, 3, 6]) if "while True:" in s_ else 0) for s_ in lsrcs]
+    lstats = collections.Counter()
+    for s, l, r in zip(lsrcs, lloops, run_pair(lsrcs, ["" for _ in lsrcs], lloops)):
+        lstats[r["status"]] += 1
+        if r["status"] == "DIFF":
+            ctx.fail("firmware trace differs from CPython trace (list operations)", {"script": s, "input": "", "loops": l, "features": ["lists"]},
+                     r["py"], {"first_difference": r["diff"], "firmware": r["fw"]}, key="list-trace-diff")
+        elif r["status"] in ("nocompile", "fw-crash"):
+            ctx.fail("list script: " + r["status"], {"script": s, "loops": l}, "compilable, running C++", r.get("log") or r, key="list-" + r["status"])
     # known findings: replay witnesses
     listed = {f["id"]: f for f in ctx.findings if f.get("kind") != "fixed" and f["id"] in WITNESSES}
     if listed:
@@ -147,10 +528,35 @@ def run_unit(ctx: C.Ctx):
         for i, r in zip(ids, wres):
             if r["status"] in ("DIFF", "nocompile"):
                 ctx.known(f"{i}: {listed[i]['what']}")
-    ir = ir_correspondence(ctx, progs)
+    ir = ir_correspondence(ctx, progs, loops, res)
+    kinds = collections.Counter()
+
+    def count(body):
+        for st in body or []:
+            kinds[st[0]] += 1
+            if st[0] == "if":
+                for _, b in st[1]:
+                    count(b)
+                count(st[2])
+            elif st[0] in ("while", "for"):
+                count(st[-1])
+    for p in progs:
+        count(p["pre"])
+        count(p["main"])
+    distribution = {"statement_kinds": dict(kinds), "feature_sets": dict(collections.Counter("+".join(f) or "core" for f in feats)),
+                    "loop_passes": dict(collections.Counter(loops)), "with_main_loop": sum(1 for p in progs if p["main"] is not None),
+                    "constant_inputs": sum(1 for p in progs if len(const_inputs(p["input"])) == 3)}
+    ctx.coverage.setdefault("distribution", {})["C01_stmt"] = distribution
+    ctx.assumptions += [
+        "C01_stmt_preserve_partial is proved modulo a shared opaque expression semantics and assumes SemFacts.sem_facts: the type label the parser infers for an expression is the type of its value (expression layer / C02); it is about the IR semantics Lang.StmtSem.cexec, which is tied to the emitted C++ only by the executable correspondence (extracted transl+cexec vs firmware trace)",
+        "C int = Z and device float = Q in the models: runs that leave the 32-bit / binary32 range are detected on the CPython side and excluded, not blamed"]
     return {
-        "evaluations": n + ir["ir_cases"], "programs_by_status": dict(stats), "ir_correspondence": ir,
+        "distribution": distribution, "outside_guard_samples": outside[:3],
+        "theorems": "C01_no_silent_drop, C01_break_guard (all programs transl accepts); C01_stmt_preserve_partial (simulation inside StmtGuard.guard_ok, modulo the shared expression semantics + SemFacts.sem_facts); C01_stmt_{range_bound,retype,promotion_reinit,loop_local_reinit}_refuted (witnesses = listed findings)",
+        "guard": "StmtGuard.guard_ok: every variable first assigned at top level of the setup part (global) or at top level of the `while True:` body before any read in that body (loop() local); later assignments keep the type label; tuple assignment only as the declaration of distinct new names at top level of the setup part; range() bound int-labelled, independent of the loop variable and of names the body assigns; loop variables fresh, unassigned, read only inside their loop; consistent expression ids.  Oracle guard (dynamic): no computed int leaves 32 bits (CPython run with every expression instrumented); a script whose deviation the extracted model itself predicts (outside guard_ok) is not blamed; no `continue`",
+        "unmodelled": ["helper functions, lists, try/except, device objects (firmware-vs-CPython oracle only)", "tuple swaps (temporaries) and hoisting (promotion) are in Lang.Transl and in the executable correspondence, but outside the simulation theorem's guard", "expression translation (unit C01_expr): the simulation is modulo a shared opaque expression semantics", "16-bit int of a real AVR"],
+        "evaluations": len(progs) + len(lsrcs) + ir["ir_cases"] + ir.get("exec_cases", 0), "list_programs_by_status": dict(lstats), "programs_by_status": dict(stats), "ir_correspondence": ir,
         "distinct_nontrivial": len({s for s, r in zip(srcs, res) if r["status"] == "equal" and len(r["py"]) >= 3}),
         "samples": [srcs[0][len(progen.HEADER):], srcs[-1][len(progen.HEADER):]],
-        "rule": "seeded programs from harness/progen.py over 6 feature sets (core ints; +floats; +helper functions; +tuple/swap; all; first assignment inside branches), N in 0..3 loop passes, scripted analog/digital inputs; non-trivial = both sides ran and the common trace has >= 3 events",
+        "rule": "10 hand-written boundary programs (break guard, nested break, empty range, elif chain, shadowing loop variable, tuple declarations reading re-assigned variables, promotion out of for/while/if) + seeded programs from harness/progen.py over 6 feature sets (core ints; +floats; +helper functions; +tuple/swap; all; first assignment inside branches), N in 0..3 loop passes, scripted analog/digital inputs (half of them constant per pin); every program: firmware trace vs CPython trace (oracle); programs without helper functions: IR of Lang.Transl.transl vs IR of the real parser; those with constant inputs additionally: extracted pexec vs CPython trace and extracted transl+cexec vs firmware trace (Lang.StmtExec), and the number of them inside the guard of C01_stmt_preserve_partial is recorded; non-trivial = both sides ran and the common trace has >= 3 events",
     }
